@@ -13,7 +13,6 @@ import (
 	"go/ast"
 	"go/token"
 	"regexp"
-	"sort"
 	"strings"
 )
 
@@ -62,6 +61,9 @@ type psWalker struct {
 	derefDone    map[string]psDeref
 	used         map[string]bool
 	gotoLabels   map[string]bool
+	canon        map[string]string
+	indexLike    map[string]bool // locals holding the result of slices.Index / IndexFunc
+	nextLocal    int
 	quiet        bool
 	invK, invVar string // pending loop invariant (truncLoop)
 }
@@ -74,9 +76,37 @@ func (w *psWalker) touch(key string) {
 	}
 }
 
+// canonKey renames the root of a key when it is a local of the walked function: the receiver becomes `recv`,
+// parameters a0, a1, …, named results r0, …, other locals x0, x1, … in order of first use (`err` and `ok` keep
+// their conventional names).  Package-level identifiers keep their names.  So the generated propositions do not
+// depend on how the source names its locals.
+func (w *psWalker) canonKey(key string) string {
+	root, rest := key, ""
+	if i := strings.Index(key, "."); i >= 0 {
+		root, rest = key[:i], key[i:]
+	}
+	// "closed.<key>": the closed-state of channel <key>; "neg.<key>": integer <key> is negative
+	if (root == "closed" || root == "neg") && rest != "" {
+		return root + "." + w.canonKey(strings.TrimPrefix(rest, "."))
+	}
+	if c, ok := w.canon[root]; ok {
+		return c + rest
+	}
+	if _, local := w.types[root]; !local {
+		return key
+	}
+	c := root
+	if root != "err" && root != "ok" {
+		c = fmt.Sprintf("x%d", w.nextLocal)
+		w.nextLocal++
+	}
+	w.canon[root] = c
+	return c + rest
+}
+
 func (w *psWalker) lv(prefix, key string) string {
 	w.touch(key)
-	n := prefix + "_" + strings.Trim(psSan.ReplaceAllString(key, "_"), "_")
+	n := prefix + "_" + strings.Trim(psSan.ReplaceAllString(w.canonKey(key), "_"), "_")
 	if v := w.ver[key]; v > 0 {
 		n += fmt.Sprintf("_v%d", v)
 	}
@@ -108,7 +138,7 @@ func (w *psWalker) bump(key string) {
 	}
 	w.touch(key)
 	for k := range w.ver {
-		if k == key || strings.HasPrefix(k, key+".") {
+		if k == key || strings.HasPrefix(k, key+".") || k == "neg."+key || k == "closed."+key {
 			w.next[k]++
 			w.ver[k] = w.next[k]
 		}
@@ -462,6 +492,24 @@ func (w *psWalker) cond(e ast.Expr) string {
 		case token.LOR:
 			return "(" + w.cond(x.X) + " ∨ " + w.cond(x.Y) + ")"
 		case token.EQL, token.NEQ, token.LSS, token.LEQ, token.GTR, token.GEQ:
+			// the sign of an integer (terms are Nat): `k < 0` / `k >= 0`, and `k == -1` / `k != -1` for the result of an
+			// Index-like library call, speak about a separate flag
+			if k := key(x.X); k != "" {
+				if v, isLit := intLitValue(x.Y); isLit && v == 0 && (x.Op == token.LSS || x.Op == token.GEQ) {
+					f := w.lv("v", "neg."+k) + " = 1"
+					if x.Op == token.GEQ {
+						f = "¬ (" + f + ")"
+					}
+					return f
+				}
+				if u, isU := x.Y.(*ast.UnaryExpr); isU && u.Op == token.SUB && psExpr(u.X) == "1" && w.indexLike[k] && (x.Op == token.EQL || x.Op == token.NEQ) {
+					f := w.lv("v", "neg."+k) + " = 1"
+					if x.Op == token.NEQ {
+						f = "¬ (" + f + ")"
+					}
+					return f
+				}
+			}
 			var a, b string
 			if isNil(x.Y) || isNil(x.X) {
 				o := x.X
@@ -499,12 +547,11 @@ var psVarRe = regexp.MustCompile(`\b(?:len|ptr|v|c|t)_[A-Za-z0-9_]+`)
 func propVars(s string) []string { return psVarRe.FindAllString(s, -1) }
 
 func (w *psWalker) emit(kind, what, src, goal string, extra ...psHyp) {
-	base := "site_" + w.short + "_" + kind + "_" + strings.Trim(psSan.ReplaceAllString(what, "_"), "_")
+	// the name is function + kind + ordinal: independent of the names of locals and of the text of the expression
+	_ = what
+	base := "site_" + w.short + "_" + kind
 	w.sh.names[base]++
-	name := base
-	if n := w.sh.names[base]; n > 1 {
-		name = fmt.Sprintf("%s_%d", base, n)
-	}
+	name := fmt.Sprintf("%s_%d", base, w.sh.names[base])
 	all := append(append([]psHyp{}, w.facts...), extra...)
 	all = append(all, w.ambient(goal, all)...)
 	// keep the hypotheses connected to the goal through shared variables
@@ -549,20 +596,21 @@ func (w *psWalker) emit(kind, what, src, goal string, extra ...psHyp) {
 }
 
 func (s psSite) lean() string {
+	// binders in order of first occurrence (not alphabetical: renaming a local must not permute them)
 	vars := map[string]bool{}
-	for _, h := range s.hyps {
-		for _, v := range propVars(h.prop) {
-			vars[v] = true
+	var vs []string
+	note := func(p string) {
+		for _, v := range propVars(p) {
+			if !vars[v] {
+				vars[v] = true
+				vs = append(vs, v)
+			}
 		}
 	}
-	for _, v := range propVars(s.goal) {
-		vars[v] = true
+	for _, h := range s.hyps {
+		note(h.prop)
 	}
-	var vs []string
-	for v := range vars {
-		vs = append(vs, v)
-	}
-	sort.Strings(vs)
+	note(s.goal)
 	var b strings.Builder
 	fmt.Fprintf(&b, "/-- %s: %s `%s`", s.fn, s.kind, s.src)
 	for _, h := range s.hyps {
